@@ -1,0 +1,49 @@
+//go:build verif
+
+package beacon
+
+// Machine-checked contracts (comment-only; compiled only with -tags verif).
+
+// The sort attribute of a record for a given sort order (0 for orders that are not time based).
+//@ pure tsof(so, t) = ite(so == SortByExpirationTimeAsc || so == SortByExpirationTimeDesc, U_treasure_exp(t), ite(so == SortByCreatedAtAsc || so == SortByCreatedAtDesc, U_treasure_created(t), ite(so == SortByModifiedAtAsc || so == SortByModifiedAtDesc, U_treasure_modified(t), 0)))
+//@ pure ts(b, i) = tsof(b.sortOrder, b.treasuresByOrder[i])
+//@ pure ascending(b) = b.sortOrder == SortByExpirationTimeAsc || b.sortOrder == SortByCreatedAtAsc || b.sortOrder == SortByModifiedAtAsc
+//@ pure sortedByTime(b) = (ascending(b) ==> forall i in 0..len(b.treasuresByOrder): forall j in i..len(b.treasuresByOrder): ts(b, i) <= ts(b, j)) && (!ascending(b) ==> forall i in 0..len(b.treasuresByOrder): forall j in i..len(b.treasuresByOrder): ts(b, i) >= ts(b, j))
+//@ pure nanos(tp) = U_unixnano(deref(tp))
+// x lies in the half-open window [from, to); a nil bound is unbounded.
+//@ pure inwin(x, from, to) = (from == nil || x >= nanos(from)) && (to == nil || x < nanos(to))
+
+//@ func (*beacon).getTimestampFromTreasure(b, t) (r)
+//@   property C07 C30
+//@   nopanic
+//@   requires[record] t != nil
+//@   ensures[attr] r == tsof(b.sortOrder, t)
+
+// P (property C07): the returned inclusive interval is exactly the set of positions whose
+// sort attribute lies in [from, to); (0,-1) when there is none.
+//@ func (*beacon).findTimeRangeBounds(b, fromTime, toTime) (s, e)
+//@   property C07
+//@   nopanic
+//@   requires[sorted] sortedByTime(b)
+//@   requires[records] forall i in 0..len(b.treasuresByOrder): b.treasuresByOrder[i] != nil
+//@   loop 0 invariant[bounds] 0 <= l && l <= r && r <= n && n == len(b.treasuresByOrder) && fromTime != nil
+//@   loop 0 invariant[left] forall i in 0..l: ts(b, i) < fromNano
+//@   loop 0 invariant[right] forall i in r..n: ts(b, i) >= fromNano
+//@   loop 0 decreases r - l
+//@   loop 1 invariant[bounds] 0 <= l && l <= r && r <= n && n == len(b.treasuresByOrder) && toTime != nil
+//@   loop 1 invariant[left] forall i in 0..l: ts(b, i) < toNano
+//@   loop 1 invariant[right] forall i in r..n: ts(b, i) >= toNano
+//@   loop 1 decreases r - l
+//@   loop 2 invariant[bounds] 0 <= l && l <= r && r <= n && n == len(b.treasuresByOrder) && toTime != nil
+//@   loop 2 invariant[left] forall i in 0..l: ts(b, i) >= toNano
+//@   loop 2 invariant[right] forall i in r..n: ts(b, i) < toNano
+//@   loop 2 decreases r - l
+//@   loop 3 invariant[bounds] 0 <= l && l <= r && r <= n && n == len(b.treasuresByOrder) && fromTime != nil
+//@   loop 3 invariant[left] forall i in 0..l: ts(b, i) >= fromNano
+//@   loop 3 invariant[right] forall i in r..n: ts(b, i) < fromNano
+//@   loop 3 decreases r - l
+//@   ensures[shape] (s == 0 && e == -1) || (0 <= s && s <= e && e < len(b.treasuresByOrder))
+//@   ensures[inside] forall i in s..e+1: inwin(ts(b, i), fromTime, toTime)
+//@   ensures[outside_before] e >= s ==> forall i in 0..s: !inwin(ts(b, i), fromTime, toTime)
+//@   ensures[outside_after] e >= s ==> forall i in e+1..len(b.treasuresByOrder): !inwin(ts(b, i), fromTime, toTime)
+//@   ensures[none] e < s ==> forall i in 0..len(b.treasuresByOrder): !inwin(ts(b, i), fromTime, toTime)
